@@ -251,6 +251,33 @@ def run(ctx):
             for _ in range(rng.randrange(1, 5)):
                 root = edit(rng, root)
             ops.append((o, dict(rest, _leakcheck=True, _limit_ms=LIMIT_MS, **root)))
+    # directed stream (no chance involved): every text member of every base call replaced by base64url text of each
+    # boundary length, by the empty string, and cut in half
+    nb = 0
+    for o, a in bs:
+        root = {k: v for k, v in a.items() if k in JSON_ARGS}
+        rest = {k: v for k, v in a.items() if k not in JSON_ARGS}
+        ps = []
+        paths_of(root, [], ps)
+        for p_ in ps:
+            cur = root
+            for k in p_[:-1]:
+                cur = cur[k]
+            if not p_ or not isinstance(cur[p_[-1]], str):
+                continue
+            # key material of RSA keys: a few members only (each conversion is expensive), everything else fully
+            if o.startswith(("jws", "jwe")) and len(p_) >= 2 and p_[-1] in ("p", "q", "dp", "dq", "qi", "d", "n") and isinstance(cur, dict) and cur.get("kty") == "RSA" and p_[-1] != "n":
+                continue
+            for n in LONG[:6] + [0, -1]:
+                r2 = copy.deepcopy(root)
+                c2 = r2
+                for k in p_[:-1]:
+                    c2 = c2[k]
+                old_ = c2[p_[-1]]
+                c2[p_[-1]] = "" if n == 0 else old_[:len(old_) // 2] if n == -1 else G.b64u(bytes([0xA5]) * n)
+                ops.append((o, dict(rest, _leakcheck=True, _limit_ms=LIMIT_MS, **r2)))
+                nb += 1
+    ctx.count("boundary-length mutants", nb)
     pool = K.pool(ctx.jose)
     privs = {json.dumps({m: k.get(m) for m in RSA_PRIV}, sort_keys=True) for k in pool.values() if k.get("kty") == "RSA"}
     only_real = [x for x in ops if model_scope(x[0], x[1], privs)]
